@@ -85,6 +85,18 @@ Proof. apply last_last. Qed.
 Ltac dest_eqb c x :=
   let E := fresh "E" in destruct (Ascii.eqb_spec c x) as [E|E]; [try subst c|].
 
+(* the ten fields of Rel for the successor state; the three arguments solve
+   the host flag, delim and hostlast fields *)
+Ltac rel10 thost tdelim thl :=
+  constructor;
+  [ assumption | assumption | assumption | thost | assumption | tdelim
+  | unfold absf; cbn;
+    repeat match goal with H : state _ = _ |- _ => rewrite H end; cbn;
+    repeat match goal with H : length (_ ++ [_]) = _ |- _ => rewrite H end; f_equal; lia
+  | cbn; lia
+  | thl
+  | assumption ].
+
 (* one iteration *)
 Lemma step_refines url eh pre c r s hostne host prevc a :
   Rel url eh pre (c :: r) s hostne host prevc a ->
@@ -108,10 +120,11 @@ Proof.
   assert (Hlen : length url = length pre + S (length r)) by (subst url; rewrite app_length; reflexivity).
   assert (Hurl' : url = (pre ++ [c]) ++ r) by (rewrite <- app_assoc; exact Hurl).
   assert (Hlen' : length (pre ++ [c]) = S (length pre)) by (rewrite app_length; simpl; lia).
-  assert (Hhost' : forall h', h' = host && negb (Ascii.eqb c "/") -> h' = (length (pre ++ [c]) <=? eh)).
-  { intros h' ->. rewrite Hlen', <- Hlt. destruct (Nat.ltb_spec (length pre) eh), (Nat.leb_spec (S (length pre)) eh); try reflexivity; lia. }
+  assert (Hhost' : (host && negb (Ascii.eqb c "/")) = (length (pre ++ [c]) <=? eh)).
+  { rewrite Hlen', <- Hlt. destruct (Nat.ltb_spec (length pre) eh), (Nat.leb_spec (S (length pre)) eh); try reflexivity; lia. }
   assert (Hpc : pre ++ [c] <> [] -> List.last (pre ++ [c]) "x" = c) by (intros _; apply last_last).
-  assert (Hnd : pre ++ [c] = [] -> hd_error r <> Some ".") by (intros E; destruct pre; discriminate).
+  assert (Hnd : pre ++ [c] = [] -> hd_error r <> Some ".") by (intros Ex; destruct pre; discriminate).
+  assert (Hhl' : forall h', h' = false -> host = false -> 0 < eh -> nth_error url (eh - 1) = Some (a_hostlast a)) by (intros; auto).
   rewrite Habs. unfold lstep, step, absf; cbn [a_state a_prevCatch a_cnt a_cs a_klen a_inParam a_nonNum a_partlen a_totallen a_last a_hostlast].
   destruct (state s) eqn:Est.
   - (* default *)
@@ -121,10 +134,7 @@ Proof.
       simpl. rewrite andb_false_r. cbn [paramCnt set_paramCnt set_startParam set_state].
       destruct (mp <? S (paramCnt s)); [eexists; reflexivity|].
       eexists; split; [reflexivity|].
-      constructor; cbn; try assumption; try lia.
-      * apply Hhost'. now rewrite andb_true_r.
-      * exact Hdelim.
-      * unfold absf; cbn. rewrite Hlen'. f_equal. lia.
+      rel10 ltac:(rewrite <- Hhost'; now rewrite andb_true_r) ltac:(exact Hdelim) ltac:(exact Hhl).
     + dest_eqb c "*".
       * (* '*' *)
         simpl. rewrite andb_false_r, Hlt; simpl. rewrite andb_true_r.
@@ -138,71 +148,43 @@ Proof.
         destruct (mp <? S (paramCnt s)); [eexists; reflexivity|].
         do 3 eexists; split; [reflexivity|split; [reflexivity|]].
         assert (Hl2 : length (pre ++ ["*"; "{"]) = S (S (length pre))) by (rewrite app_length; simpl; lia).
-        constructor; cbn; try assumption; try lia.
+        constructor.
         -- rewrite <- app_assoc; exact Hurl.
+        -- exact Heh.
+        -- exact Hhn.
         -- rewrite Hl2. symmetry. apply Nat.leb_gt. symmetry in Hhost. apply Nat.leb_gt in Hhost. lia.
         -- intros _. replace (pre ++ ["*"; "{"]) with ((pre ++ ["*"]) ++ ["{"]) by (now rewrite <- app_assoc). apply last_last.
         -- exact Hdelim.
         -- unfold absf; cbn. rewrite Hl2. f_equal. lia.
-        -- intros _ Hpos. apply (Hhl eq_refl Hpos).
-        -- intros E; destruct pre; discriminate.
+        -- cbn. lia.
+        -- exact Hhl.
+        -- intros Ex; destruct pre; discriminate.
       * (* static byte *)
-        assert (Hfin : forall s1 a1 h',
-                   h' = host && negb (Ascii.eqb c "/") ->
-                   paramCnt s1 = paramCnt s ->
-                   Rel url eh (pre ++ [c]) r s1 hostne h' c a1 ->
-                   match (if mp <? paramCnt s then LStop else LNext h' a1) with
-                   | LStop => exists k, match (if mp <? paramCnt s1 then Stop (Reject ETooManyParams) else Next (S (length pre)) s1) with
-                                         | Stop r0 => Stop r0 | Next i s2 => Next i s2 end = Stop (Reject k)
-                   | LNext host' a' => exists s', match (if mp <? paramCnt s1 then Stop (Reject ETooManyParams) else Next (S (length pre)) s1) with
-                                         | Stop r0 => Stop r0 | Next i s2 => Next i s2 end = Next (S (length pre)) s' /\
-                                         Rel url eh (pre ++ [c]) r s' hostne host' c a'
-                   | LSkip _ => False
-                   end).
-        { intros s1 a1 h' Hh Hc HR. rewrite Hc. destruct (mp <? paramCnt s); [eexists; reflexivity|]. eexists; split; [reflexivity|exact HR]. }
         simpl. rewrite Hlt.
         destruct (host && negb (Ascii.eqb c "/")) eqn:Einh.
         -- (* inside the hostname *)
            assert (Hh : host = true) by (destruct host; [reflexivity|discriminate]).
            assert (Hcs : Ascii.eqb c "/" = false) by (destruct (Ascii.eqb c "/"); [rewrite Hh in Einh; discriminate|reflexivity]).
-           rewrite Hh, Hcs in *. simpl.
-           assert (Hd' : forall s1, delim s1 = delim s -> delim s1 = ldelim hostne true) by (intros s1 ->; exact Hdelim).
+           rewrite Hh, Hcs. rewrite Hh in Hdelim. simpl.
            destruct (is_alpha_us c).
-           { match goal with |- context [Next (length pre) ?s1] => set (s1' := s1) end.
-             match goal with |- context [LNext true ?a1] => set (a1' := a1) end.
-             specialize (Hfin s1' a1' true eq_refl eq_refl).
-             cbn [paramCnt] in *.
-             destruct (mp <? paramCnt s) eqn:Emp.
-             - cbn. rewrite Emp. eexists; reflexivity.
-             - cbn. rewrite Emp. eexists; split; [reflexivity|].
-               constructor; cbn; try assumption; try lia.
-               + apply Hhost'. reflexivity.
-               + unfold absf; cbn. rewrite Hlen'. f_equal. lia.
-               + discriminate. }
+           { cbn [paramCnt set_last set_partlen set_nonNumeric set_countStatic].
+             destruct (mp <? paramCnt s) eqn:Emp; [eexists; reflexivity|].
+             eexists; split; [reflexivity|].
+             rel10 ltac:(exact Hhost') ltac:(exact Hdelim) ltac:(discriminate). }
            destruct (is_digit c).
-           { destruct (mp <? paramCnt s) eqn:Emp; cbn; rewrite Emp; [eexists; reflexivity|].
+           { cbn [paramCnt set_last set_partlen set_nonNumeric set_countStatic].
+             destruct (mp <? paramCnt s) eqn:Emp; [eexists; reflexivity|].
              eexists; split; [reflexivity|].
-             constructor; cbn; try assumption; try lia.
-             + apply Hhost'. reflexivity.
-             + unfold absf; cbn. rewrite Hlen'. f_equal. lia.
-             + discriminate. }
+             rel10 ltac:(exact Hhost') ltac:(exact Hdelim) ltac:(discriminate). }
            dest_eqb c "-".
-           { simpl. destruct (Ascii.eqb (last s) "."); [eexists; reflexivity|].
-             destruct (mp <? paramCnt s) eqn:Emp; cbn; rewrite Emp; [eexists; reflexivity|].
+           { simpl. cbn [last set_countStatic].
+             destruct (Ascii.eqb (last s) "."); [eexists; reflexivity|].
+             cbn [paramCnt set_last set_partlen set_nonNumeric set_countStatic].
+             destruct (mp <? paramCnt s) eqn:Emp; [eexists; reflexivity|].
              eexists; split; [reflexivity|].
-             constructor; cbn; try assumption; try lia.
-             + apply Hhost'. reflexivity.
-             + unfold absf; cbn. rewrite Hlen'. f_equal. lia.
-             + discriminate. }
+             rel10 ltac:(exact Hhost') ltac:(exact Hdelim) ltac:(discriminate). }
            dest_eqb c ".".
            { simpl. cbn [last set_countStatic partlen].
-             assert (Hrest : forall (X : sres) (Y : lsres),
-               (if Ascii.eqb (last s) "-" then Stop (Reject EDashBeforeDot) else
-                if max_label <? partlen s then Stop (Reject ELabelTooLong) else X) = X \/
-               (exists k, (if Ascii.eqb (last s) "-" then Stop (Reject EDashBeforeDot) else
-                if max_label <? partlen s then Stop (Reject ELabelTooLong) else X) = Stop (Reject k))) by
-               (intros; destruct (Ascii.eqb (last s) "-"); [right; eexists; reflexivity|];
-                destruct (max_label <? partlen s); [right; eexists; reflexivity|left; reflexivity]).
              destruct (Ascii.eqb (last s) ".") eqn:Eld; simpl.
              - (* url[i-1] is evaluated *)
                destruct pre as [|p0 pre0] eqn:Epre.
@@ -217,38 +199,31 @@ Proof.
                destruct (Ascii.eqb (last s) "-"); [eexists; reflexivity|].
                destruct (max_label <? partlen s); [eexists; reflexivity|].
                rewrite <- Hlp.
-               destruct (mp <? paramCnt s) eqn:Emp; cbn; rewrite Emp; [eexists; reflexivity|].
+               cbn [paramCnt set_last set_partlen set_totallen set_countStatic].
+               destruct (mp <? paramCnt s) eqn:Emp; [eexists; reflexivity|].
                eexists; split; [reflexivity|].
-               constructor; cbn; try assumption; try lia.
-               + apply Hhost'. reflexivity.
-               + unfold absf; cbn. rewrite Hlen'. f_equal. lia.
-               + discriminate.
+               rel10 ltac:(exact Hhost') ltac:(exact Hdelim) ltac:(discriminate).
              - destruct (Ascii.eqb (last s) "-"); [eexists; reflexivity|].
                destruct (max_label <? partlen s); [eexists; reflexivity|].
-               destruct (mp <? paramCnt s) eqn:Emp; cbn; rewrite Emp; [eexists; reflexivity|].
+               cbn [paramCnt set_last set_partlen set_totallen set_countStatic].
+               destruct (mp <? paramCnt s) eqn:Emp; [eexists; reflexivity|].
                eexists; split; [reflexivity|].
-               constructor; cbn; try assumption; try lia.
-               + apply Hhost'. reflexivity.
-               + unfold absf; cbn. rewrite Hlen'. f_equal. lia.
-               + discriminate. }
+               rel10 ltac:(exact Hhost') ltac:(exact Hdelim) ltac:(discriminate). }
            eexists; reflexivity.
         -- (* past the hostname, or the first '/' *)
-           destruct (mp <? paramCnt s) eqn:Emp; cbn; rewrite Emp; [eexists; reflexivity|].
+           assert (Hpcnt : paramCnt (set_countStatic (S (countStatic s)) (if host && Ascii.eqb c "/" then set_delim "/" s else s)) = paramCnt s)
+             by (destruct (host && Ascii.eqb c "/"); reflexivity).
+           rewrite Hpcnt.
+           destruct (mp <? paramCnt s) eqn:Emp; [eexists; reflexivity|].
            eexists; split; [reflexivity|].
-           constructor; cbn; try assumption; try lia.
-           ++ apply Hhost'. now rewrite Einh.
+           rel10 ltac:(rewrite <- Hhost'; exact Einh) ltac:(idtac) ltac:(idtac).
            ++ (* delim *)
               destruct host; simpl in *.
-              ** (* first slash: delim set to '/' *)
-                 destruct (Ascii.eqb c "/"); [|discriminate]. simpl. unfold ldelim; reflexivity.
-              ** simpl. rewrite andb_false_l. cbn. exact Hdelim.
-           ++ unfold absf; cbn.
-              destruct (host && Ascii.eqb c "/"); cbn; rewrite Hlen'; f_equal; lia.
-           ++ destruct (host && Ascii.eqb c "/"); cbn; lia.
+              ** destruct (Ascii.eqb c "/"); [|discriminate]. reflexivity.
+              ** exact Hdelim.
            ++ (* hostlast *)
-              intros _ Hpos. destruct host eqn:Eh.
-              ** (* first slash at eh = length pre *)
-                 assert (Hce : Ascii.eqb c "/" = true) by (destruct (Ascii.eqb c "/"); [reflexivity|discriminate]).
+              cbn. intros _ Hpos. destruct host eqn:Eh.
+              ** assert (Hce : Ascii.eqb c "/" = true) by (destruct (Ascii.eqb c "/"); [reflexivity|discriminate]).
                  rewrite Hce in Heq. simpl in Heq. apply Nat.eqb_eq in Heq.
                  assert (Hpn : pre <> []) by (intros ->; simpl in Heq; lia).
                  rewrite <- Heq, Hurl, (nth_error_last pre "x") by exact Hpn. f_equal. apply Hprevc, Hpn.
@@ -260,15 +235,12 @@ Proof.
       destruct (inParam s); simpl; [|eexists; reflexivity].
       rewrite Hlen. rewrite Hi1.
       assert (Hc : Ascii.eqb "}" "/" = false) by reflexivity.
-      rewrite Hc, andb_true_r in Hlt.
+      rewrite Hc, andb_true_r in Hlt, Hhost'.
       destruct r as [|n r']; simpl.
       * replace (S (length pre) <? length pre + 1) with false by (symmetry; apply Nat.ltb_ge; lia).
         eexists; split; [reflexivity|].
-        rewrite Hlt. constructor; cbn; try assumption; try lia.
-        -- apply Hhost'. reflexivity.
-        -- destruct host; cbn; exact Hdelim.
-        -- unfold absf; destruct host; cbn; rewrite Hlen'; f_equal; lia.
-        -- destruct host; cbn; lia.
+        rewrite Hlt.
+        rel10 ltac:(exact Hhost') ltac:(destruct host; cbn; exact Hdelim) ltac:(destruct host; exact Hhl).
       * replace (S (length pre) <? length pre + S (S (length r'))) with true by (symmetry; apply Nat.ltb_lt; lia).
         rewrite Hdelim.
         destruct (Ascii.eqb n (ldelim hostne host) || Ascii.eqb n "/") eqn:En.
@@ -276,12 +248,8 @@ Proof.
            replace (negb (Ascii.eqb n (ldelim hostne host)) && negb (Ascii.eqb n "/")) with false
              by (destruct En as [-> | ->]; simpl; [reflexivity|now rewrite andb_false_r]).
            simpl. eexists; split; [reflexivity|].
-           rewrite Hlt. constructor; cbn; try assumption; try lia.
-           ++ apply Hhost'. reflexivity.
-           ++ destruct host; cbn; exact Hdelim.
-           ++ unfold absf; destruct host; cbn; rewrite Hlen'; f_equal; lia.
-           ++ destruct host; cbn; lia.
-           ++ discriminate.
+           rewrite Hlt.
+           rel10 ltac:(exact Hhost') ltac:(destruct host; cbn; exact Hdelim) ltac:(destruct host; exact Hhl).
         -- apply orb_false_iff in En. destruct En as [-> ->]. simpl. eexists; reflexivity.
     + simpl.
       destruct (mk <? length pre - startParam s); [eexists; reflexivity|].
@@ -291,42 +259,35 @@ Proof.
       eexists; split; [reflexivity|].
       apply orb_false_iff in Ebad. destruct Ebad as [Ebad _]. apply orb_false_iff in Ebad. destruct Ebad as [Ebad _].
       apply orb_false_iff in Ebad. destruct Ebad as [_ Ecs].
-      constructor; cbn; try assumption; try lia.
-      * apply Hhost'. now rewrite Ecs, andb_true_r.
-      * unfold absf; cbn. rewrite Hlen'. f_equal. lia.
-      * discriminate.
+      rewrite Ecs, andb_true_r in Hhost'.
+      rel10 ltac:(exact Hhost') ltac:(exact Hdelim) ltac:(exact Hhl).
   - (* catch-all *)
     unfold step_catchall, at_. rewrite Hi.
     dest_eqb c "}".
     + simpl. cbn [inParam set_inParam].
       destruct (inParam s); simpl; [|eexists; reflexivity].
       rewrite Hlen, Hi1.
+      assert (Hc : Ascii.eqb "}" "/" = false) by reflexivity.
+      rewrite Hc, andb_true_r in Hhost'.
       destruct r as [|n r']; simpl.
       * replace (S (length pre) <? length pre + 1) with false by (symmetry; apply Nat.ltb_ge; lia).
         cbn [previous countStatic set_inParam].
         destruct (pstate_eqb (previous s) StCatchAll && (countStatic s <=? 1)); [eexists; reflexivity|].
         eexists; split; [reflexivity|].
-        constructor; cbn; try assumption; try lia.
-        -- apply Hhost'. now rewrite andb_true_r.
-        -- unfold absf; cbn. rewrite Est. cbn. rewrite Hlen'. f_equal. lia.
+        rel10 ltac:(exact Hhost') ltac:(exact Hdelim) ltac:(exact Hhl).
       * replace (S (length pre) <? length pre + S (S (length r'))) with true by (symmetry; apply Nat.ltb_lt; lia).
         destruct (Ascii.eqb n "/"); simpl; [|eexists; reflexivity].
         cbn [previous countStatic set_inParam].
         destruct (pstate_eqb (previous s) StCatchAll && (countStatic s <=? 1)); [eexists; reflexivity|].
         eexists; split; [reflexivity|].
-        constructor; cbn; try assumption; try lia.
-        -- apply Hhost'. now rewrite andb_true_r.
-        -- unfold absf; cbn. rewrite Est. cbn. rewrite Hlen'. f_equal. lia.
-        -- discriminate.
+        rel10 ltac:(exact Hhost') ltac:(exact Hdelim) ltac:(exact Hhl).
     + simpl.
       destruct (mk <? length pre - startParam s); [eexists; reflexivity|].
       destruct (Ascii.eqb c "/" || Ascii.eqb c "*" || Ascii.eqb c "{") eqn:Ebad; [eexists; reflexivity|].
       eexists; split; [reflexivity|].
       apply orb_false_iff in Ebad. destruct Ebad as [Ebad _]. apply orb_false_iff in Ebad. destruct Ebad as [Ecs _].
-      constructor; cbn; try assumption; try lia.
-      * apply Hhost'. now rewrite Ecs, andb_true_r.
-      * unfold absf; cbn. rewrite Hlen'. f_equal. lia.
-      * discriminate.
+      rewrite Ecs, andb_true_r in Hhost'.
+      rel10 ltac:(exact Hhost') ltac:(exact Hdelim) ltac:(exact Hhl).
 Qed.
 
 End Refine.
